@@ -42,7 +42,7 @@ ASSUMPTIONS = [
     "EZSP_CMD_TIMEOUT is read from the tree",
 ]
 REACH = {t: ["beh_now", "beh_delay", "beh_late", "beh_never", "beh_twice", "beh_cb_before", "beh_cb_after",
-             "beh_foreign", "beh_sendfail", "cancel_queued", "cancel_sending", "cancel_waiting", "cancel_handover", "cancelled_send_went_out_all_the_same",
+             "beh_foreign", "beh_sendfail", "beh_twice_now", "cancel_queued", "cancel_sending", "cancel_waiting", "cancel_handover", "cancelled_send_went_out_all_the_same",
              "three_classes_queued", "sequence_wrap", "unsolicited_to_two_callbacks", "priority_overtake", "commands_in_second_session",
              "timeout_observed", "probe_ok"] for t in ("quick", "thorough")}
 SHARD_TIMEOUT = {"quick": 900, "thorough": 3600}
@@ -134,6 +134,11 @@ def run_case(case, V, acc=None):
                 elif beh == "twice":
                     loop.io_at(now, deliver, reply, ("reply", i), seq, cid, vals)
                     loop.io_at(now + 0.1, deliver, reply, ("dup", i), seq, cid, vals)
+                elif beh == "twice_now":
+                    # the copy comes right behind the original - processed in the same loop iteration, before the
+                    # task that awaits the reply has run again
+                    loop.io_at(now, deliver, reply, ("reply", i), seq, cid, vals)
+                    loop.io_at(now, deliver, reply, ("dup", i), seq, cid, vals)
                 elif beh == "cb_before":
                     cbframe(0.0)
                     loop.io_at(now + 0.05, deliver, reply, ("reply", i), seq, cid, vals)
@@ -500,7 +505,7 @@ def gen_cases(tier, seed, V):
         for i in range(k):
             c = rnd.choice(clsn)
             pool = CLASSES[c] + [x for x in EXTRA[c] if x in cmds]
-            callers.append(dict(cls=c, name=rnd.choice(pool), beh=rnd.choice(BEHAVIOURS + ["now", "now", "delay"]),
+            callers.append(dict(cls=c, name=rnd.choice(pool), beh=rnd.choice(BEHAVIOURS + ["now", "now", "delay", "twice_now"]),
                                 offset=rnd.choice([0.0, 0.0, 0.0, 0.1, 0.25, 0.7, 5.0]),
                                 cancel=rnd.choice([None, None, None, "queued", "sending", "waiting", "handover"]),
                                 hops=rnd.randrange(0, 4), frame_goes_out=rnd.random() < 0.5))
@@ -517,6 +522,12 @@ def gen_cases(tier, seed, V):
                                dict(cls=cb, name=CLASSES[cb][1], beh="now", offset=0.0, cancel="handover", hops=h),
                                dict(cls=clsn[(h + 1) % 3], name=CLASSES[clsn[(h + 1) % 3]][2], beh="now", offset=0.0)]
                     cases.append({"callers": callers, "seed": seed + h})
+    # a reply doubled within one loop iteration, alone and with other commands queued behind
+    for ca in clsn:
+        for k in (1, 2, 3):
+            callers = [dict(cls=ca, name=CLASSES[ca][0], beh="twice_now", offset=0.0)] + \
+                [dict(cls=clsn[(j + 1) % 3], name=CLASSES[clsn[(j + 1) % 3]][j % 3], beh=("now", "twice_now")[j % 2], offset=0.0) for j in range(k - 1)]
+            cases.append({"callers": callers, "seed": seed + k})
     # sequence wrap: many commands through 3 classes
     for w in range(1 if tier == "quick" else 4):
         callers = []
